@@ -44,6 +44,7 @@ ZOO = [
     "...\n",
     "'''just a docstring'''\n",
     "x = 1  # pyrefact: ignore\ny = 2\n",
+    "import logging\nlogging.info(f'{name:{width}} done')\nlogging.info(f'{a!r:>{w}.{p}}', extra)\nlog.debug(f'{x:{y}{z}}')\nlogger.warning(f'{v:{w}}' % ())\n",
     "", "\n", "   \n\t\n", "\n\n\n\n", "    ", "\x0c\n", "#\n", "x = 1", "\ufeffx = 1\n", "x = 1\r\ny = 2\r\n", "x = 1\ry = 2\r",
 ]
 
